@@ -1121,7 +1121,7 @@ func runCC(id string, c *Case) string {
 			fail(id, "concurrent-listing", "stored blobs after concurrent pushes: "+joinListing(l), c)
 		}
 	}
-	if (c.Kind == "oci" || c.Kind == "mem" || c.Kind == "file" || strings.HasPrefix(c.Kind, "lim")) && len(c.Pushes) <= 3 && len(want) <= 120 {
+	if (c.Kind == "oci" || c.Kind == "ocistore" || c.Kind == "mem" || c.Kind == "file" || strings.HasPrefix(c.Kind, "lim")) && len(c.Pushes) <= 3 && len(want) <= 120 {
 		// trace correspondence: the observed outcome must be a terminal outcome of the
 		// model's transition system (the model answers MEMBER)
 		res := make([]string, len(errs))
@@ -1751,7 +1751,7 @@ func genBig(r *common.Rand, kind string) *Case {
 func genConcurrent(r *common.Rand, kind string) *Case {
 	size := 1 + r.Intn(3000)
 	n := 1 + r.Intn(4)
-	if (kind == "oci" || kind == "mem" || kind == "file" || strings.HasPrefix(kind, "lim")) && r.Chance(2, 3) { // small enough for the model's exhaustive interleaving
+	if (kind == "oci" || kind == "ocistore" || kind == "mem" || kind == "file" || strings.HasPrefix(kind, "lim")) && r.Chance(2, 3) { // small enough for the model's exhaustive interleaving
 		n = 1 // two racers; three (up to 1680 interleavings in the model) in a quarter of the cases
 		if r.Chance(1, 4) {
 			n = 2
